@@ -7,11 +7,22 @@ From TP Require Import Model.Prelude Extracted Model.Toxics Model.Timed Model.Re
      Proofs.GoArith Proofs.StageContract Proofs.LinkInv.
 From Coq Require Import ZifyBool ZifyNat.
 
-Definition ctl_ok (a : cact) : Prop :=
+(** which control actions the invariant admits, in the state in which they are taken. An attribute
+    write ([CSetTx]) must leave the running stage in a state that is well-formed for the new
+    attributes: true of every stage and every value once the bandwidth toxic cuts with the rate it
+    tested ([setx_keeps_wf] below; on a tree where it re-reads the attribute this is where the proof
+    stops, and the state it stops at is the crash of finding F13). *)
+Definition ctl_ok (l : link) (a : cact) : Prop :=
   match a with
-  | CRestart _ tx eff | CAppend tx eff =>
+  | CRestart _ tx eff | CAppend tx eff | CInsertAfter _ tx eff =>
     let t := if eff then tx else TNoop in preserving t /\ attrs_ok t
   | CForwardDrop _ | CSever _ => False
+  | CSetTx i tx =>
+    match nth_error (l_stubs l) i with
+    | Some s => let t := if s_eff s then tx else TNoop in
+                preserving t /\ attrs_ok t /\ wf t (s_st s) /\ pstate_ok t (s_ps s)
+    | None => True
+    end
   | _ => True
   end.
 
@@ -26,10 +37,52 @@ Qed.
 Lemma forall_remove_nth {A} (P : A -> Prop) (l : list A) : forall i, Forall P l -> Forall P (remove_nth i l).
 Proof. induction l as [|x l IH]; intros [|i] H; simpl; auto; inversion H; subst; auto. Qed.
 
-Theorem ctl_preserves l a l' :
-  link_ok l -> ctl_ok a -> ctl_step l a = Some l' -> link_ok l' /\ stream l' = stream l.
+Lemma close_downstream_preserves l j :
+  link_ok l -> link_ok (close_downstream l j) /\ stream (close_downstream l j) = stream l.
 Proof.
-  intros Hok Ha Hstep. destruct a as [i|i tx eff|tx eff|i|i|i|i]; simpl in Hstep, Ha.
+  intros Hok. unfold close_downstream. destruct (nth_error (l_stubs l) j) as [t|] eqn:Hn.
+  - destruct (nth_split _ _ _ Hn) as (pre & post & Hl & Hlen). subst j.
+    pose proof Hok as Hok0. unfold link_ok in Hok0. rewrite Hl in Hok0.
+    pose proof (ok_get _ _ _ Hok0) as Ht.
+    set (t' := mkStub _ _ _ _ _ _ true _).
+    assert (Ht' : stub_ok t') by (unfold stub_ok, t', eff_tx in *; simpl; tauto).
+    split.
+    + unfold link_ok, upd_stub; cbn [l_stubs]. rewrite Hl, set_nth_split. eapply ok_set; eassumption.
+    + rewrite (stream_split l pre t post Hl).
+      erewrite (stream_split _ pre t' post) by (unfold upd_stub; cbn [l_stubs]; rewrite Hl; apply set_nth_split).
+      reflexivity.
+  - split; [exact Hok|reflexivity].
+Qed.
+
+Lemma flow_insert (l : list stub) n x : seg x = [] -> flow (firstn n l ++ x :: skipn n l) = flow l.
+Proof.
+  intros Hx. rewrite flow_app. simpl. rewrite Hx, app_nil_r. rewrite <- flow_app. now rewrite firstn_skipn.
+Qed.
+
+Lemma forall_insert (P : stub -> Prop) (l : list stub) n x : Forall P l -> P x -> Forall P (firstn n l ++ x :: skipn n l).
+Proof.
+  intros Hl Hx. rewrite <- (firstn_skipn n l) in Hl. apply Forall_app in Hl as [H1 H2].
+  apply Forall_app. split; [exact H1|constructor; assumption].
+Qed.
+
+Lemma insert_preserves l i st :
+  link_ok l -> stub_ok st -> seg st = [] ->
+  let l' := mkLink (l_now l) (l_src l) (l_rest l) (l_rd l) (firstn (S i) (l_stubs l) ++ st :: skipn (S i) (l_stubs l))
+                   (l_draws l) (l_trace l) (l_sink_closed l) (l_rx l) (l_tx l) (l_sink_delay l) (l_wr_ready l) in
+  link_ok l' /\ stream l' = stream l.
+Proof.
+  intros Hok Hst Hseg l'. split.
+  - unfold link_ok, l'; cbn [l_stubs]. apply forall_insert; assumption.
+  - unfold stream, sink_bytes, pending, l'; cbn [l_stubs l_trace l_rd l_rest l_src]. now rewrite flow_insert.
+Qed.
+
+Lemma new_pstate_ok (tx : toxic) (eff : bool) : preserving (if eff then tx else TNoop) -> pstate_ok (if eff then tx else TNoop) (new_pstate tx).
+Proof. destruct eff; [|intros _; exact I]. destruct tx; simpl; auto; contradiction. Qed.
+
+Theorem ctl_preserves l a l' :
+  link_ok l -> ctl_ok l a -> ctl_step l a = Some l' -> link_ok l' /\ stream l' = stream l.
+Proof.
+  intros Hok Ha Hstep. destruct a as [i|i tx eff|tx eff|i|i|i|i|i tx|i|i|i tx eff|i tx]; simpl in Hstep, Ha.
   - (* interrupt *)
     destruct (nth_error (l_stubs l) i) as [s|] eqn:Hn; [|discriminate].
     destruct (listens_interrupt s); [|discriminate]. inversion Hstep; subst l'; clear Hstep.
@@ -110,23 +163,112 @@ Proof.
     + unfold link_ok; simpl. apply forall_remove_nth. exact Hok.
     + unfold stream, sink_bytes, pending; simpl. rewrite Hl. now rewrite (flow_remove_nth pre s post Hseg).
   - contradiction.
+  - (* attribute write *)
+    destruct (nth_error (l_stubs l) i) as [s|] eqn:Hn; [|discriminate].
+    inversion Hstep; subst l'; clear Hstep. destruct Ha as (Hp & Hat & Hw & Hps).
+    destruct (nth_split _ _ _ Hn) as (pre & post & Hl & Hlen). subst i.
+    set (s' := mkStub tx _ _ _ _ _ _ _).
+    assert (Hs' : stub_ok s') by (unfold stub_ok, s', eff_tx; simpl; tauto).
+    pose proof Hok as Hok0. unfold link_ok in Hok0. rewrite Hl in Hok0.
+    split; [unfold link_ok, upd_stub; cbn [l_stubs]; rewrite Hl, set_nth_split; eapply ok_set; eassumption|].
+    rewrite (stream_split l pre s post Hl).
+    erewrite (stream_split _ pre s' post) by (unfold upd_stub; cbn [l_stubs]; rewrite Hl; apply set_nth_split).
+    reflexivity.
+  - (* the flush loop receives from an unbuffered input *)
+    destruct i as [|j]; [discriminate|].
+    destruct (nth_error (l_stubs l) (S j)) as [s|] eqn:Hn; [|discriminate].
+    destruct (nth_error (l_stubs l) j) as [sp|] eqn:Hnp; [|discriminate].
+    destruct (is_exited s && negb (s_closed s) && (s_cap s =? 0) && match s_inq s with [] => true | _ => false end) eqn:Hc; [|discriminate].
+    destruct (nth_split _ _ _ Hnp) as (pre & post0 & Hl & Hlen). subst j.
+    rewrite Hl, nth_error_split_S in Hn. destruct post0 as [|s0 post]; [discriminate|]. simpl in Hn. inversion Hn; subst s0. clear Hn.
+    apply andb_prop in Hc as [Hc Hq]. apply andb_prop in Hc as [Hc _]. apply andb_prop in Hc as [Hex _].
+    unfold is_exited in Hex. destruct (s_st s) eqn:Hst; try discriminate.
+    destruct (s_inq s) eqn:Hinq; [|discriminate].
+    pose proof Hok as Hok0. unfold link_ok in Hok0. rewrite Hl in Hok0.
+    pose proof (ok_get _ _ _ Hok0) as Hsp.
+    assert (Hs : stub_ok s).
+    { apply Forall_app in Hok0 as [_ H2]. inversion H2 as [|? ? _ H3]; subst. now inversion H3. }
+    assert (Hgen : forall c, (mode_of (s_st sp) = MSend c \/ exists dl, mode_of (s_st sp) = MSendT c dl) ->
+       let l1 := upd_stub l (S (length pre)) (mkStub (s_tx s) (s_eff s) Exited (s_ps s) [c] (s_cap s) (s_in_closed s) (s_closed s)) in
+       link_ok (stub_sent l1 (length pre) sp) /\ stream (stub_sent l1 (length pre) sp) = stream l).
+    { intros c Hm l1. set (s1 := mkStub (s_tx s) (s_eff s) Exited (s_ps s) [c] (s_cap s) (s_in_closed s) (s_closed s)) in *.
+      pose proof (sent_step sp c (l_now l1) Hsp Hm) as Hsent. unfold stub_sent.
+      destruct (on_sent (eff_tx sp) (s_ps sp) (l_now l1) (s_st sp)) as [st' ps'] eqn:Hos.
+      destruct Hsent as [Hsp' Hseg].
+      set (sp' := mkStub (s_tx sp) (s_eff sp) st' ps' (s_inq sp) (s_cap sp) (s_in_closed sp) (s_closed sp)) in *.
+      assert (Hs1 : stub_ok s1) by (unfold stub_ok, s1, eff_tx in *; simpl; rewrite Hst in Hs; tauto).
+      assert (Hl2 : l_stubs (upd_stub l1 (length pre) sp') = pre ++ sp' :: s1 :: post).
+      { unfold l1, upd_stub; cbn [l_stubs]. rewrite Hl, set_nth_split_S, set_nth_split. reflexivity. }
+      split.
+      - unfold link_ok. rewrite Hl2.
+        replace (pre ++ sp' :: s1 :: post) with ((pre ++ [sp']) ++ s1 :: post) by now rewrite <- app_assoc.
+        eapply ok_set; [|exact Hs1]. rewrite <- app_assoc. simpl. eapply ok_set; eassumption.
+      - rewrite (stream_split l pre sp (s :: post) Hl).
+        rewrite (stream_split _ pre sp' (s1 :: post) Hl2).
+        change (sink_bytes (upd_stub l1 (length pre) sp')) with (sink_bytes l).
+        change (pending (upd_stub l1 (length pre) sp')) with (pending l).
+        simpl. rewrite Hseg. unfold seg at 1 3. unfold s1. cbn [s_st s_inq]. rewrite Hst, Hinq. unfold qbytes. simpl.
+        rewrite !app_nil_r. now rewrite <- !app_assoc. }
+    destruct (mode_of (s_st sp)) eqn:Hm; try discriminate; inversion Hstep; subst l'; clear Hstep.
+    + apply Hgen. left. reflexivity.
+    + apply Hgen. right. eexists. reflexivity.
+  - (* the flush loop received nil: the stub closes *)
+    destruct (nth_error (l_stubs l) i) as [s|] eqn:Hn; [|discriminate].
+    destruct (is_exited s && negb (s_closed s) && s_in_closed s && match s_inq s with [] => true | _ => false end) eqn:Hc; [|discriminate].
+    inversion Hstep; subst l'; clear Hstep.
+    destruct (nth_split _ _ _ Hn) as (pre & post & Hl & Hlen). subst i.
+    set (s' := mkStub _ _ _ _ _ _ _ true).
+    pose proof Hok as Hok0. unfold link_ok in Hok0. rewrite Hl in Hok0.
+    pose proof (ok_get _ _ _ Hok0) as Hs.
+    assert (Hs' : stub_ok s') by (unfold stub_ok, s', eff_tx in *; simpl; tauto).
+    assert (H1 : link_ok (upd_stub l (length pre) s') /\ stream (upd_stub l (length pre) s') = stream l).
+    { split; [unfold link_ok, upd_stub; cbn [l_stubs]; rewrite Hl, set_nth_split; eapply ok_set; eassumption|].
+      rewrite (stream_split l pre s post Hl).
+      erewrite (stream_split _ pre s' post) by (unfold upd_stub; cbn [l_stubs]; rewrite Hl; apply set_nth_split).
+      reflexivity. }
+    destruct H1 as [Hok1 Hs1].
+    destruct (close_downstream_preserves _ (S (length pre)) Hok1) as [Hok2 Hs2].
+    split; [exact Hok2|congruence].
+  - (* the new stub is connected behind stub i *)
+    destruct (Nat.ltb i (length (l_stubs l))); [|discriminate]. inversion Hstep; subst l'; clear Hstep.
+    destruct Ha as [Hp Hat].
+    pose proof (new_pstate_ok tx eff Hp) as Hps.
+    set (t := if eff then tx else TNoop) in *.
+    destruct (wf_init t (new_pstate tx) (l_now l) Hps) as [Hw Hh].
+    set (st := mkStub _ _ _ _ _ _ _ _).
+    assert (Hst : stub_ok st) by (unfold stub_ok, st, eff_tx; simpl; fold t; tauto).
+    assert (Hseg : seg st = []) by (unfold seg, st; simpl; fold t; rewrite Hh; reflexivity).
+    exact (insert_preserves l i st Hok Hst Hseg).
+  - (* a stub that is closed at once *)
+    destruct (Nat.ltb i (length (l_stubs l))); [|discriminate]. inversion Hstep; subst l'; clear Hstep.
+    set (st := mkStub _ _ _ _ _ _ _ _).
+    assert (Hst : stub_ok st) by (unfold stub_ok, st, eff_tx; simpl; tauto).
+    assert (Hseg : seg st = []) by reflexivity.
+    exact (insert_preserves l i st Hok Hst Hseg).
 Qed.
 
-Definition mact_ok (a : mact) : Prop :=
+Definition mact_ok (l : link) (a : mact) : Prop :=
   match a with
   | MData (ASendTimeout _) => False
   | MData _ => True
-  | MCtl c => ctl_ok c
+  | MCtl c => ctl_ok l c
+  end.
+
+(** every action of the history is admitted in the state in which it is taken *)
+Fixpoint run_ok (l : link) (sigma : list mact) : Prop :=
+  match sigma with
+  | [] => True
+  | a :: r => mact_ok l a /\ match mixed_step l a with Some l' => run_ok l' r | None => True end
   end.
 
 Theorem mixed_run_inv sigma : forall l l',
-  link_ok l -> Forall mact_ok sigma -> mixed_run l sigma = Some l' ->
+  link_ok l -> run_ok l sigma -> mixed_run l sigma = Some l' ->
   link_ok l' /\ stream l' = stream l.
 Proof.
   induction sigma as [|a sigma IH]; intros l l' Hok Hs Hrun; simpl in Hrun.
   - inversion Hrun; subst. auto.
   - destruct (mixed_step l a) as [l1|] eqn:Hst; [|discriminate].
-    inversion Hs as [|? ? Ha Hrest]; subst.
+    cbn [run_ok] in Hs. rewrite Hst in Hs. destruct Hs as [Ha Hrest].
     assert (H1 : link_ok l1 /\ stream l1 = stream l).
     { destruct a as [d|c]; simpl in Hst.
       - apply (step_preserves l l1 d Hok); [|exact Hst]. intros i ->. exact Ha.
@@ -135,3 +277,50 @@ Proof.
     split; [exact H2|congruence].
 Qed.
 
+(** the state-independent part: histories without attribute writes need no look at the states *)
+Definition mact_static_ok (a : mact) : Prop :=
+  match a with
+  | MData (ASendTimeout _) => False
+  | MData _ => True
+  | MCtl (CSetTx _ _) => False
+  | MCtl c => forall l, ctl_ok l c
+  end.
+
+Lemma static_run_ok sigma : Forall mact_static_ok sigma -> forall l, run_ok l sigma.
+Proof.
+  induction 1 as [|a sigma Ha _ IH]; intros l; cbn [run_ok]; [exact I|].
+  split.
+  - destruct a as [d|c]; [exact Ha|]. destruct c; try exact (Ha l); contradiction.
+  - destruct (mixed_step l a); [apply IH|exact I].
+Qed.
+
+(** an attribute write leaves every stage well-formed - in every state of every toxic, for every new
+    value of the same toxic type - provided the bandwidth cut uses the rate its loop test read *)
+Definition same_kind (a b : toxic) : bool :=
+  match a, b with
+  | TNoop, TNoop | TLatency _ _, TLatency _ _ | TBandwidth _, TBandwidth _ | TSlicer _ _ _, TSlicer _ _ _
+  | TSlowClose _, TSlowClose _ | TTimeout _, TTimeout _ | TResetPeer _, TResetPeer _ | TLimitData _, TLimitData _ => true
+  | _, _ => false
+  end.
+
+Theorem setx_keeps_wf (old new : toxic) (st : lstate) :
+  bw_cut_uses_tested_rate = true -> same_kind old new = true -> wf old st -> wf new st.
+Proof.
+  intros Hfact Hk Hw. destruct old, new; try discriminate; destruct st; cbn [wf] in *; auto;
+    try (destruct k; auto).
+  destruct Hw as [Hs _]. split; [exact Hs|]. rewrite Hfact. discriminate.
+Qed.
+
+Theorem setx_ok l i tx s :
+  bw_cut_uses_tested_rate = true -> link_ok l -> nth_error (l_stubs l) i = Some s ->
+  same_kind (s_tx s) tx = true -> ctl_ok l (CSetTx i tx).
+Proof.
+  intros Hfact Hok Hn Hk. cbn [ctl_ok]. rewrite Hn.
+  destruct (nth_split _ _ _ Hn) as (pre & post & Hl & _).
+  unfold link_ok in Hok. rewrite Hl in Hok. destruct (ok_get _ _ _ Hok) as (Hp & Ha & Hw & Hps).
+  unfold eff_tx in *. destruct (s_eff s); [|tauto].
+  split; [destruct (s_tx s), tx; try discriminate; simpl in Hp |- *; auto|].
+  split; [apply attrs_ok_all|].
+  split; [eapply setx_keeps_wf; eassumption|].
+  destruct (s_tx s), tx; try discriminate; auto.
+Qed.
